@@ -4,7 +4,7 @@ CONSTANTS
   InitNames <- Names4
   InitConsts <- Consts4
   NamePool = {"a", "b"}
-  Focus = {"InitUpdate2","IOAppend","IOExtend","IOSetSlice","IODelSlice","IOPop","InitAdd"}
+  Focus = {"InitUpdate2","InitUpdateKeys","IOAppend","IOExtend","IOSetSlice","IODelSlice","IOPop","InitAdd"}
   SeedIds = {0,1,2,5}
   OpGraphs = {1}
   ForeignOps = {"IOAppend","InitAdd"}
